@@ -45,6 +45,11 @@ RULE = (
     "through the node list of the sorted graph, many closing or opening a cycle - each followed by the same entry point on the "
     "same objects (also after a ValueError); every such sort is one more evaluation, judged by the same oracle on (structure "
     "now, orders observed now) and compared with that structure constructed directly in those orders. "
+    "In half of the structures nodes carry OTHER attributes next to their graph attributes - value attributes (INT/FLOAT/STRING/INTS) and "
+    "reference attributes (ir.RefAttr of type INT/FLOAT/STRING/INTS/TENSOR) - before, between and after the graph attributes or alone on a "
+    "node without graph attributes, up to four graph attributes (GRAPH and GRAPHS in either order) on one node; Function.sort and the functions "
+    "of TopologicalSortPass declare the referenced function attributes; case ids = 3 (mod 40) also carry reference attributes of type GRAPH / "
+    "GRAPHS (which hold no graph). The attribute order is part of the structure (twins get the same order). "
     "Non-trivial = the sorted scope has >=2 nodes and >=1 "
     "same-graph dependency constraint; distinct = hash of (structure, initial orders, entry point)."
 )
@@ -59,6 +64,7 @@ ASSUMPTIONS = [
     "reversed(graph) disagreeing with list(graph) after a sort is counted (report_only_reversed_view_differs_after_sort), not judged",
     "a sort of objects that were sorted (or failed to sort) before and edited since is a sort of 'the structure now in the order now': the statement gives the earlier calls no influence, so it is judged like a first sort and must agree with the direct construction of that structure and order",
     "names (None, '', or a string) are not part of the dependency relation: a cyclic graph must give ValueError whatever its nodes and values are called; in the all-graphs-already-ordered case 'left exactly as it was' includes the names of nodes and their outputs (a name changed by a sort that did reorder is counted, report_only_names_changed_by_reordering_sort)",
+    "attributes that hold no graph - value attributes and reference attributes of any type, GRAPH / GRAPHS included - add nothing to and take nothing from the relation of the statement, wherever they stand among a node's attributes; a graph or function body whose nodes carry them is sorted like any other (an exception other than the cycle's ValueError is a finding)",
     "for TopologicalSortPass over several units a ValueError from a later unit after an earlier unit was sorted is counted (report_only_pass_sorted_before_raise), not judged; the cyclic units themselves must be unchanged",
 ]
 
@@ -102,6 +108,15 @@ def plan(tier: str) -> dict:
                 "stage_edit:Node.attributes[name]=graph(s)": 350, "stage_edit:new-node(other graph)": 150,
                 # cyclic graphs met with nodes whose name is None / ''
                 "unnamed_nodes_in_scope:cycle": 800, "all_nodes_unnamed:cycle": 100,
+                # nodes carrying other attributes (values / references) before, between and after their graph attributes
+                "attrs:evaluations_with_other_attributes": 5000, "attrs:ref@before-graph-attr": 1800,
+                "attrs:ref@between-graph-attrs": 250, "attrs:ref@after-graph-attr": 1300,
+                "attrs:value@before-graph-attr": 1600, "attrs:value@between-graph-attrs": 250,
+                "attrs:ref@before-graph-attr&reordered": 800, "attrs:graph_behind_other_attr_reordered": 110,
+                "attrs:graph_behind_other_attr_reordered|Function.sort": 20,
+                "attrs:graph_behind_other_attr_reordered|TopologicalSortPass": 25,
+                "attrs:graph_typed_reference_in_scope": 40, "attrs:node_with_3+_graph_attrs": 2200,
+                "attrs_target:Function.sort": 1200, "attrs_target:TopologicalSortPass": 700,
             },
             "min_nontrivial": 15000,
             "params": {"exhaustive_n": 3, "hashseed_every": 40, "hashseed_shard_mod": 4, "exhaustive_history": 1.0},
@@ -132,6 +147,14 @@ def plan(tier: str) -> dict:
             "stage_edit:Node.replace_input_with": 25000, "stage_edit:Value.replace_all_uses_with": 8000,
             "stage_edit:Node.attributes[name]=graph(s)": 5000, "stage_edit:new-node(other graph)": 2500,
             "unnamed_nodes_in_scope:cycle": 14000, "all_nodes_unnamed:cycle": 2000,
+            "attrs:evaluations_with_other_attributes": 50000, "attrs:ref@before-graph-attr": 18000,
+            "attrs:ref@between-graph-attrs": 2500, "attrs:ref@after-graph-attr": 13000,
+            "attrs:value@before-graph-attr": 16000, "attrs:value@between-graph-attrs": 2500,
+            "attrs:ref@before-graph-attr&reordered": 8000, "attrs:graph_behind_other_attr_reordered": 1100,
+            "attrs:graph_behind_other_attr_reordered|Function.sort": 200,
+            "attrs:graph_behind_other_attr_reordered|TopologicalSortPass": 250,
+            "attrs:graph_typed_reference_in_scope": 400, "attrs:node_with_3+_graph_attrs": 22000,
+            "attrs_target:Function.sort": 12000, "attrs_target:TopologicalSortPass": 7000,
         },
         "min_nontrivial": 400000,
         "params": {"exhaustive_n": 4, "hashseed_every": 12, "hashseed_shard_mod": 1, "exhaustive_history": 0.1},
@@ -159,6 +182,28 @@ def render(case: dict, r: dict | None = None) -> str:
 
 
 NAMES = "|names:"
+ATTRS = "|attrs:"  # kinds of the other attributes (values / references, next to the graph attributes) the witness carries
+
+
+def _attrs_suffix(case: dict) -> str:
+    """Which other attributes the nodes of the judged structure carry - value / reference attribute and
+    where it stands relative to the node's graph attributes; a reference attribute of a graph type by its
+    type - (part of the signature only as long as the reduced witness still needs them)."""
+    kinds = sorted({t for u in case["units"] for n in u["nodes"] for t in G.plain_tags(n, for_signature=True)})
+    return ATTRS + ",".join(kinds) if kinds else ""
+
+
+def without_plain(case: dict) -> dict:
+    return dict(case, units=[G.without_plain(u) for u in case["units"]])
+
+
+def _replace_attrs(sig: str, new: str) -> str:
+    if ATTRS not in sig:
+        return sig
+    head, tail = sig.split(ATTRS, 1)
+    rest = [x for x in (NAMES, HIST, STAGED) if x in tail]
+    cut = min(tail.index(x) for x in rest) if rest else len(tail)
+    return head + new + tail[cut:]
 
 
 def _names_suffix(case: dict) -> str:
@@ -185,7 +230,7 @@ def judge(case: dict, r: dict, counts: Counter) -> list[tuple[str, str]]:
     out: list[tuple[str, str]] = []
 
     def add(sig: str, what: str) -> None:
-        out.append((sig + _names_suffix(case), f"{what}\n{render(case, r)}"))
+        out.append((sig + _attrs_suffix(case) + _names_suffix(case), f"{what}\n{render(case, r)}"))
 
     cyclic_units: dict[int, str] = {}
     for u, spec in enumerate(units):
@@ -303,7 +348,7 @@ def _history_suffix(case: dict) -> str:
 def sig_class(sig: str) -> tuple[str, bool, bool]:
     """(what failed, needs-moves class, needs-earlier-sort class); the names part is not a class of
     its own: the shrinker drops the names when the failure does not need them."""
-    return sig.split(STAGED)[0].split(HIST)[0].split(NAMES)[0], HIST in sig, STAGED in sig
+    return sig.split(STAGED)[0].split(HIST)[0].split(NAMES)[0].split(ATTRS)[0], HIST in sig, STAGED in sig
 
 
 def _strip_names(sig: str, generic: bool = False) -> str:
@@ -380,7 +425,7 @@ def check_case(case: dict, counts: Counter, twin_variant: str = "B", twin_seed: 
             counts["history_twin_built_directly"] += 1
         if (t["exc"], t["post"]) != (r["exc"], r["post"]):
             how = "the same initial order constructed directly" if hist else f"construction {twin_variant}"
-            findings.append((f"determinism-twin|{case['target']}" + _names_suffix(case),
+            findings.append((f"determinism-twin|{case['target']}" + _attrs_suffix(case) + _names_suffix(case),
                              f"two independently built isomorphic inputs (same structure, same initial order) ended "
                              f"differently: {r['exc']} {r['post']} vs {t['exc']} {t['post']} ({how})\n{render(case, r)}", None))
     if hist and findings:
@@ -411,7 +456,7 @@ def check_case(case: dict, counts: Counter, twin_variant: str = "B", twin_seed: 
             raise RuntimeError("C12 harness: direct construction of a stage is not isomorphic\n" + render_story(case, r, k))
         counts["stage:twin_compared"] += 1
         if not found and (t["exc"], t["post"]) != (rec["exc"], rec["post"]):
-            found.append((f"determinism-twin|{case['target']}" + _names_suffix(scase),
+            found.append((f"determinism-twin|{case['target']}" + _attrs_suffix(scase) + _names_suffix(scase),
                           f"the live objects (sorted, then edited) and the same structure constructed directly in the same "
                           f"order ended differently: {rec['exc']} {rec['post']} vs {t['exc']} {t['post']}\n{render(scase, rec)}"))
         # what this stage exercised
@@ -558,6 +603,12 @@ def _unit_reductions(case: dict):
                 for k in reversed(range(len(spec["names"]))):
                     yield _with_unit(case, u, dict(spec, names=spec["names"][:k] + spec["names"][k + 1:]))
     for u, spec in enumerate(units):
+        if G.has_plain(spec):  # the other attributes: all of them, then one by one
+            yield _with_unit(case, u, G.without_plain(spec))
+            for nid, n in enumerate(spec["nodes"]):
+                for k in reversed(range(len(n.get("plain", [])))):
+                    yield _with_unit(case, u, G.drop_plain(spec, nid, k))
+    for u, spec in enumerate(units):
         if "history" not in spec:
             continue
         h = spec["history"]
@@ -676,10 +727,18 @@ def _pick_target(rng, spec) -> dict:
     return {"target": name, **extra}
 
 
-def generate(rng) -> tuple[list[dict], dict]:
+GRAPH_REF_STRATUM = 40  # case ids = 3 (mod 40): structures with reference attributes of type GRAPH / GRAPHS
+P_PLAIN = 0.5  # share of the structures whose nodes carry other attributes next to their graph attributes
+
+
+def generate(rng, graph_refs: bool = False) -> tuple[list[dict], dict]:
     """All evaluations of one case id: a list of cases (same structure, different initial orders)
-    and the generator's feature summary."""
+    and the generator's feature summary.  ``graph_refs``: the fixed stratum of structures that also
+    carry reference attributes of type GRAPH / GRAPHS."""
+    plain = "graph-refs" if graph_refs else "some" if rng.random() < P_PLAIN else "none"
     cls = rng.choice(["perm"] * 5 + ["small"] * 6 + ["medium"] * 6 + ["large"] * 3)
+    if graph_refs and cls == "perm":
+        cls = "small"  # (no enumeration of permutations in this stratum)
     cyclic = rng.random() < 0.35
     depth_max = rng.choice([0, 1, 1, 2, 2, 3, 3])
     if cls == "perm":
@@ -691,7 +750,7 @@ def generate(rng) -> tuple[list[dict], dict]:
         n = rng.randint(9, 20)
     else:
         n = rng.randint(21, 40)
-    spec, meta = G.gen_structure(rng, n, depth_max, cyclic)
+    spec, meta = G.gen_structure(rng, n, depth_max, cyclic, plain)
     meta["class"] = cls
     if rng.random() < P_NAMES:
         spec["names"] = G.gen_names(rng, spec)
@@ -721,7 +780,8 @@ def generate(rng) -> tuple[list[dict], dict]:
         units = [G.with_orders(spec, G.initial_orders(rng, spec, mode))]
         if tgt["target"] == "TopologicalSortPass":
             for _ in range(rng.choice([0, 1, 1, 2])):
-                fs, _m = G.gen_structure(rng, rng.randint(1, 10), rng.choice([0, 1, 2]), rng.random() < 0.2)
+                fs, _m = G.gen_structure(rng, rng.randint(1, 10), rng.choice([0, 1, 2]), rng.random() < 0.2,
+                                         "none" if plain == "none" else "some")
                 if rng.random() < P_NAMES:
                     fs["names"] = G.gen_names(rng, fs)
                 units.append(G.with_orders(fs, G.initial_orders(rng, fs, rng.choice(G.ORDER_MODES))))
@@ -729,6 +789,28 @@ def generate(rng) -> tuple[list[dict], dict]:
             units = [G.add_history(rng, un) if (k == 0 or rng.random() < 0.6) else un for k, un in enumerate(units)]
         cases.append(staged({"units": units, **tgt}, P_STAGES[cls]))
     return cases, meta
+
+
+def _needed_plain(case: dict, cls: tuple, variant: str, seed: int) -> dict:
+    """The case with every other attribute removed that the failure (class ``cls``) does not need."""
+    def fails(c: dict) -> bool:
+        try:
+            found, _ = check_case(c, Counter(), variant, seed)
+        except RuntimeError:
+            return False
+        return any(sig_class(f[0]) == cls for f in found)
+
+    bare = without_plain(case)
+    if fails(bare):
+        return bare
+    cur = case
+    for u in range(len(case["units"])):
+        for nid in range(len(case["units"][u]["nodes"])):
+            for k in reversed(range(len(cur["units"][u]["nodes"][nid].get("plain", [])))):
+                cand = _with_unit(cur, u, G.drop_plain(cur["units"][u], nid, k))
+                if fails(cand):
+                    cur = cand
+    return cur
 
 
 def _report(ctx, findings, case, variant, seed, r, do_shrink=True) -> None:
@@ -760,6 +842,10 @@ def _report(ctx, findings, case, variant, seed, r, do_shrink=True) -> None:
                 sig = again[0]
                 msg = f"[shrunk witness, {sum(len(u['nodes']) for u in small['units'])} nodes] " + again[1]
         else:
+            if ATTRS in sig:
+                # (not shrunk: only the other attributes are reduced, greedily, so that the signature
+                # names the kinds the failure needs)
+                sig = _replace_attrs(sig, _attrs_suffix(_needed_plain(case, cls, variant, seed)))
             if NAMES in sig:
                 bare, _r = check_case(without_names(case), Counter(), variant, seed)
                 if any(sig_class(f[0]) == cls for f in bare):
@@ -804,6 +890,39 @@ def _count_history(ctx, spec: dict, scope: set[int]) -> None:
             ctx.count(f"history:last_move_is_noop_of_{end}_node")
 
 
+def _count_attrs(ctx, case: dict, r: dict, sc: list[set[int]]) -> None:
+    """What the sorted scope held in the way of other attributes next to graph attributes."""
+    tags: set[str] = set()
+    many = behind = False
+    for u, (spec, s_) in enumerate(zip(case["units"], sc)):
+        for n in spec["nodes"]:
+            if n["g"] not in s_:
+                continue
+            tags |= G.plain_tags(n)
+            many = many or len(n["attrs"]) >= 3
+            if n.get("plain") and r["exc"] is None:
+                # a nested graph held by an attribute that FOLLOWS another attribute was reordered
+                first = min(p[0] for p in n["plain"])
+                behind = behind or any(r["post"][u][gid] != r["pre"][u][gid] for a in n["attrs"][max(first, 0):] for gid in a[2])
+    if many:
+        ctx.count("attrs:node_with_3+_graph_attrs")
+    if not tags:
+        return
+    ctx.count("attrs:evaluations_with_other_attributes")
+    ctx.count(f"attrs_target:{case['target']}")
+    for t in tags:
+        ctx.count(f"attrs:{t}")
+    if any(t.startswith("graphref@") for t in tags):
+        ctx.count("attrs:graph_typed_reference_in_scope")
+    if behind:
+        ctx.count("attrs:graph_behind_other_attr_reordered")
+        ctx.count(f"attrs:graph_behind_other_attr_reordered|{case['target']}")
+    if r["exc"] is None and r["post"] != r["pre"]:
+        for t in tags:
+            if "before" in t or "between" in t:
+                ctx.count(f"attrs:{t}&reordered")
+
+
 def _count_names(ctx, case: dict, rec: dict, prefix: str) -> None:
     """How many sorts met nodes without a name (None or "") in the sorted scope, by outcome."""
     total = blank = 0
@@ -837,6 +956,7 @@ def _evaluate(ctx, case: dict, rng, hs_batch: list, every: int, meta: dict | Non
         for u, s_ in zip(case["units"], sc):
             if "history" in u:
                 _count_history(ctx, u, s_)
+    _count_attrs(ctx, case, r, sc)
     n_nodes = sum(len(u["graphs"][g]["order"]) for u, s in zip(case["units"], sc) for g in s)
     n_cons = sum(len(r["cons"][u][g]) for u, s in enumerate(sc) for g in s)
     ctx.count("nodes_sorted", n_nodes)
@@ -913,7 +1033,7 @@ def run(ctx) -> None:
     # 2. random structures
     for case_id in ctx.case_ids():
         rng = ctx.rng(case_id)
-        cases, meta = generate(rng)
+        cases, meta = generate(rng, graph_refs=case_id % GRAPH_REF_STRATUM == 3)
         for key in ("none_inputs", "repeated_inputs", "captures", "back_edges", "graph_input_uses",
                     "multi_output_nodes", "cf_nodes", "empty_subgraphs", "detached_never", "detached_removed",
                     "uses_of_detached_outputs"):
